@@ -1,0 +1,30 @@
+//go:build verif
+
+// Lemma harnesses for package y: real Go functions composing the real functions; the
+// verifier proves their postconditions from the callees' contracts only.
+
+package y
+
+// lemmaKeyRoundTrip: C20, "encoding the key with the version and decoding it returns the
+// same key and version" (non-empty user key).
+//
+//@ func lemmaKeyRoundTrip
+//@   props C20
+//@   requires len(k) > 0
+//@   ensures[key] bytes(result0) == bytes(k)
+//@   ensures[version] result1 == ts
+func lemmaKeyRoundTrip(k []byte, ts uint64) ([]byte, uint64) {
+	ik := KeyWithTs(k, ts)
+	return ParseKey(ik), ParseTs(ik)
+}
+
+// lemmaKeyOrder: C20, "comparing encoded keys orders them by user key ascending and then by
+// version descending".
+//
+//@ func lemmaKeyOrder
+//@   props C20
+//@   ensures[less] result < 0 <==> (lexcmp(k1,k2) < 0 || (lexcmp(k1,k2) == 0 && t1 > t2))
+//@   ensures[equal] result == 0 <==> (lexcmp(k1,k2) == 0 && t1 == t2)
+func lemmaKeyOrder(k1 []byte, t1 uint64, k2 []byte, t2 uint64) int {
+	return CompareKeys(KeyWithTs(k1, t1), KeyWithTs(k2, t2))
+}
